@@ -23,6 +23,7 @@
 #include "queue.h"
 #include "array.h"
 #include "types.h"
+#include "event.h"
 #include "vf.h"
 
 const char *vf_name = "c17_msg";
@@ -942,7 +943,161 @@ static void case_getprng(vf_rng *r)
 /* ------------------------------------------------------------------ entry */
 static uint64_t n_prng(void) { return vf_thorough ? 3000000 : 50000; }
 static uint64_t n_getprng(void) { return vf_thorough ? 100000 : 4000; }
-uint64_t vf_cases(void) { return n_exA() + n_exB() + n_prng() + n_getex() + n_getprng(); }
+
+/* -------------------------------------------------------- dispatch_hash */
+/*
+ * mpt_dispatch_hash() picks the handler from the command word at the start of
+ * a message (2 byte header: type, argument separator).  Handlers are registered
+ * for a word, its prefixes and an extension, so a word shortened or lengthened
+ * by one byte reaches a different handler.  A case is one message; it is
+ * dispatched contiguous and in every cut into 2 and 3 fragments (plus variants
+ * with empty fragments and PRNG lists up to 8 fragments), each fragment in its
+ * own exact-size block: handler called, return value and ev.id must equal the
+ * contiguous run, which itself must reach the handler registered for the word.
+ */
+static const char *const DWORDS[] = { "s", "st", "sta", "star", "start", "starts", "stop", "sto", "x" };
+static const int DREG[] = { 1, 1, 0, 1, 1, 1, 1, 0, 0 };
+#define NDWORDS 9
+static int d_called, d_calls;
+static uintptr_t d_seen_id;
+static int d_handler(void *arg, MPT_STRUCT(event) *ev)
+{
+	int idx = *(int *) arg;
+	if (!ev) return 0;
+	d_called = idx; d_calls++;
+	d_seen_id = ev->id;
+	return (idx & 1) ? MPT_EVENTFLAG(Default) : MPT_EVENTFLAG(None);
+}
+static int d_unknown(void *arg, MPT_STRUCT(event) *ev)
+{
+	(void) arg;
+	if (!ev) return 0;
+	d_called = -1; d_calls++;
+	d_seen_id = ev->id;
+	return MPT_EVENTFLAG(Fail);
+}
+typedef struct { int ret, called, calls; uintptr_t id, seen; } dres;
+static dres d_run(MPT_STRUCT(dispatch) *disp, const uint8_t *data, const size_t *cuts, int k, int all_in_list)
+{
+	uint8_t *blk[12];
+	int nv = all_in_list ? k : k - 1;
+	struct iovec *vec = vf_xalloc(nv * sizeof(*vec));
+	MPT_STRUCT(message) msg = MPT_MESSAGE_INIT;
+	MPT_STRUCT(event) ev = MPT_EVENT_INIT;
+	size_t pos = 0;
+	dres res;
+	for (int i = 0; i < k; i++) {
+		blk[i] = vf_xalloc(cuts[i]);
+		if (cuts[i]) memcpy(blk[i], data + pos, cuts[i]);
+		pos += cuts[i];
+		if (all_in_list) { vec[i].iov_base = blk[i]; vec[i].iov_len = cuts[i]; }
+		else if (i) { vec[i - 1].iov_base = blk[i]; vec[i - 1].iov_len = cuts[i]; }
+	}
+	if (!all_in_list) { msg.base = blk[0]; msg.used = cuts[0]; }
+	msg.cont = nv ? vec : 0;
+	msg.clen = nv;
+	ev.msg = &msg;
+	d_called = 0; d_calls = 0; d_seen_id = 0;
+	vf_at("mpt_dispatch_hash"); vf_count("mpt_dispatch_hash", 1);
+	res.ret = mpt_dispatch_hash(disp, &ev);
+	res.called = d_called; res.calls = d_calls; res.id = ev.id; res.seen = d_seen_id;
+	pos = 0;
+	for (int i = 0; i < k; i++) {
+		VF_CHECK(!cuts[i] || !memcmp(blk[i], data + pos, cuts[i]), "model:dispatch_hash:data-modified", "fragment %d of the dispatched message changed", i);
+		pos += cuts[i];
+		vf_xfree(blk[i], cuts[i]);
+	}
+	vf_xfree(vec, nv * sizeof(*vec));
+	return res;
+}
+static uint64_t n_dispatch(void) { return NDWORDS * 3 * 9 * 2 * 2 * 2; }
+static void case_dispatch(uint64_t idx, vf_rng *r)
+{
+	static int index[NDWORDS];
+	MPT_STRUCT(dispatch) disp;
+	uint8_t data[64];
+	char ctx[200];
+	int w = idx % NDWORDS, mode = (idx / NDWORDS) % 3;
+	size_t a = (idx / (NDWORDS * 3)) % 9;
+	int second = (idx / (NDWORDS * 27)) % 2, trailing = (idx / (NDWORDS * 54)) % 2, lead = (idx / (NDWORDS * 108)) % 2;
+	uint8_t sep = mode == 1 ? ' ' : 0;
+	size_t len = 0, wlen = strlen(DWORDS[w]), wstart;
+
+	/* header */
+	data[len++] = mode == 2 ? MPT_MESGTYPE(Output) : MPT_MESGTYPE(Command);
+	data[len++] = mode == 2 ? ' ' : sep;        /* separator byte of other message types is not used: NUL separated */
+	if (lead && sep) { data[len++] = ' '; data[len++] = '\t'; }
+	wstart = len;
+	memcpy(data + len, DWORDS[w], wlen); len += wlen;
+	if (a || second || lead) {
+		data[len++] = sep;
+		for (size_t i = 0; i < a; i++) data[len++] = (uint8_t) ('a' + i);
+	}
+	if (second) { data[len++] = sep; data[len++] = 'b'; }
+	if (trailing) data[len++] = sep;
+	snprintf(ctx, sizeof(ctx), "command '%s' (%s), message %s", DWORDS[w], mode == 1 ? "space separated" : mode == 0 ? "NUL separated" : "NUL separated, other message type", show(hx1, sizeof(hx1), data, len));
+	vf_fp_u64(0xD15); vf_fp(data, len);
+
+	vf_at("mpt_dispatch_init");
+	mpt_dispatch_init(&disp);
+	disp._err.cmd = d_unknown;
+	disp._err.arg = 0;
+	for (int i = 0; i < NDWORDS; i++) {
+		index[i] = i + 1;
+		if (!DREG[i]) continue;
+		vf_at("mpt_dispatch_set");
+		if (mpt_dispatch_set(&disp, mpt_hash(DWORDS[i], (int) strlen(DWORDS[i])), d_handler, &index[i]) < 0) vf_inconclusive("harness: mpt_dispatch_set(%s) failed", DWORDS[i]);
+	}
+	/* contiguous reference, checked against the meaning of the message */
+	dres ref = d_run(&disp, data, &len, 1, 0);
+	int want = DREG[w] ? w + 1 : -1;
+	VF_CHECK(ref.calls == 1 && ref.called == want, "model:dispatch_hash:contiguous-reference", "%s: contiguous dispatch called handler %d (%d calls), expected %d", ctx, ref.called, ref.calls, want);
+	VF_CHECK(ref.id == mpt_hash(DWORDS[w], (int) wlen) && ref.seen == ref.id, "model:dispatch_hash:contiguous-reference", "%s: contiguous dispatch left id %lx (handler saw %lx), hash of the word is %lx", ctx,
+	         (unsigned long) ref.id, (unsigned long) ref.seen, (unsigned long) mpt_hash(DWORDS[w], (int) wlen));
+	VF_CHECK(ref.ret == (want < 0 ? MPT_EVENTFLAG(Fail) : (want & 1) ? MPT_EVENTFLAG(Default) : MPT_EVENTFLAG(None)), "model:dispatch_hash:contiguous-reference", "%s: contiguous dispatch returned %d", ctx, ref.ret);
+	vf_count(want < 0 ? "dispatch:unknown-word" : "dispatch:registered-word", 1);
+
+	size_t cuts[12];
+	int wordcut = 0;
+#define D_COMPARE(K, LIST) do { \
+		dres cur = d_run(&disp, data, cuts, (K), (LIST)); \
+		size_t p_ = 0; int cutin_ = 0; \
+		for (int i_ = 0; i_ + 1 < (K); i_++) { p_ += cuts[i_]; if (p_ > wstart && p_ < wstart + wlen) cutin_ = 1; } \
+		if (cutin_) { wordcut++; vf_count(sep ? "dispatch:word-cut-space-sep" : "dispatch:word-cut-nul-sep", 1); } \
+		if (cur.called != ref.called || cur.calls != ref.calls || cur.ret != ref.ret || cur.id != ref.id || cur.seen != ref.seen) { \
+			char cb_[80]; size_t o_ = 0; \
+			for (int i_ = 0; i_ < (K); i_++) o_ += snprintf(cb_ + o_, sizeof(cb_) - o_, "%s%zu", i_ ? "," : "", cuts[i_]); \
+			vf_fail("model:dispatch_hash:fragmented-differs", "%s cut as {%s}%s: handler %d (%d calls) ret %d id %lx; contiguous: handler %d ret %d id %lx", ctx, cb_, (LIST) ? " (all in list)" : "", \
+			        cur.called, cur.calls, cur.ret, (unsigned long) cur.id, ref.called, ref.ret, (unsigned long) ref.id); \
+		} \
+		vf_count("monitor:dispatch-compared", 1); \
+	} while (0)
+	for (size_t x = 0; x <= len; x++) {
+		cuts[0] = x; cuts[1] = len - x;
+		D_COMPARE(2, 0);
+		D_COMPARE(2, 1);
+		for (size_t c = x; c <= len; c++) {
+			cuts[0] = x; cuts[1] = c - x; cuts[2] = len - c; D_COMPARE(3, 0);
+			cuts[0] = x; cuts[1] = 0; cuts[2] = c - x; cuts[3] = len - c; D_COMPARE(4, 0);
+			cuts[0] = x; cuts[1] = c - x; cuts[2] = 0; cuts[3] = len - c; D_COMPARE(4, (int) (c & 1));
+			cuts[0] = 0; cuts[1] = x; cuts[2] = c - x; cuts[3] = len - c; cuts[4] = 0; D_COMPARE(5, 0);
+		}
+	}
+	for (int i = 0; i < 30; i++) {
+		int k = 3 + vf_below(r, 6);
+		size_t left = len;
+		for (int j = 0; j + 1 < k; j++) { size_t n = vf_chance(r, 1, 4) ? 0 : 1 + vf_below(r, 3); if (n > left) n = left; cuts[j] = n; left -= n; }
+		cuts[k - 1] = left;
+		D_COMPARE(k, (int) vf_below(r, 2));
+	}
+#undef D_COMPARE
+	vf_at("mpt_dispatch_fini");
+	mpt_dispatch_fini(&disp);
+	if (wordcut) vf_nontrivial();
+	if (idx % 211 == 17) vf_sample("dispatch_hash: %s -> handler %d; every cut into 2 and 3 fragments (+ empty fragments), 30 PRNG lists", ctx, ref.called);
+}
+
+uint64_t vf_cases(void) { return n_exA() + n_exB() + n_prng() + n_getex() + n_getprng() + n_dispatch(); }
 
 void vf_case(uint64_t idx, vf_rng *r)
 {
@@ -954,5 +1109,7 @@ void vf_case(uint64_t idx, vf_rng *r)
 	if (idx < n_prng()) { case_prng(r); return; }
 	idx -= n_prng();
 	if (idx < n_getex()) { case_getex(idx, r); return; }
-	case_getprng(r);
+	idx -= n_getex();
+	if (idx < n_getprng()) { case_getprng(r); return; }
+	case_dispatch(idx - n_getprng(), r);
 }
